@@ -49,9 +49,14 @@ pub struct Sim {
     pub requested: BTreeMap<(u8, u8), u32>,
     pub announced: BTreeSet<u8>,
     pub batch: usize,
+    pub peers: u8,
+    pub lite3: bool,
 }
 
+/// `peers` = 2: two serving peers; 3: a third peer without fetch url; 13: three serving peers
 pub fn start(u: &Uni, batch: u64, peers: u8) -> Result<Sim, String> {
+    let lite3 = peers == 3;
+    let peers = if peers == 13 { 3 } else { peers };
     let mut cfg = Cfg::new(10, crate::factory::HEARTBEAT);
     cfg.server.as_mut().unwrap().block_fetch_batch_size = batch;
     let mut n = FullNode::new(key(9), cfg, MemIO::new(), ManualClock::new(10_000_000));
@@ -75,11 +80,14 @@ pub fn start(u: &Uni, batch: u64, peers: u8) -> Result<Sim, String> {
     }
     n.pump();
     for p in 1..=peers {
-        connect_and_handshake(&mut n, p as u64, &key(10 + p), &format!("http://peer{}", p))?;
+        // peers 1 and 2 serve blocks; peer 3 (when present) has no fetch url (a lite client): it can
+        // announce, but a fetch from it cannot be dispatched
+        let url = if p == 3 && lite3 { String::new() } else { format!("http://peer{}", p) };
+        connect_and_handshake(&mut n, p as u64, &key(10 + p), &url)?;
         // the node asks the new peer for its chain; scripted peers stay silent about that
     }
     n.io.take_outbox();
-    Ok(Sim { n, inflight: BTreeSet::new(), requested: BTreeMap::new(), announced: BTreeSet::new(), batch: batch as usize })
+    Ok(Sim { n, inflight: BTreeSet::new(), requested: BTreeMap::new(), announced: BTreeSet::new(), batch: batch as usize, peers, lite3 })
 }
 
 fn hash_index(u: &Uni, h: &Hash) -> Option<u8> {
@@ -92,7 +100,10 @@ pub fn apply(u: &Uni, s: &mut Sim, ev: Ev, rep: &mut Report, hist: &[Ev]) -> boo
     let r = match ev {
         Ev::Announce(p, h) => {
             let b = &u.w.blocks[u.hs[h as usize]];
-            s.announced.insert(h);
+            if !(p == 3 && s.lite3) {
+                // (completeness is owed to announcements by a peer that can serve the block)
+                s.announced.insert(h);
+            }
             s.n.net(incoming(p as u64, &Message::BlockHeaderHash(b.hash, b.id)))
         }
         Ev::Fetched(p, h) => {
@@ -153,7 +164,7 @@ pub fn apply(u: &Uni, s: &mut Sim, ev: Ev, rep: &mut Report, hist: &[Ev]) -> boo
             }
         }
     }
-    for p in 1..=2u8 {
+    for p in 1..=s.peers {
         let c = s.inflight.iter().filter(|x| x.0 == p).count();
         if c > s.batch {
             rep.violate("in-flight-exceeds-batch-size", format!("peer {}: {} in flight, batch size {} after {:?}", p, c, s.batch, hist), ctx.clone());
@@ -191,12 +202,15 @@ pub fn digest(s: &Sim) -> Hash {
             })
             .collect::<Vec<_>>(),
     );
-    saito_core::core::util::crypto::hash(format!("{:?}|{:?}|{:?}|{:?}|{:?}|{:?}", snap, o.tip_hash, o.blocks, o.pool_blocks, q, s.inflight).as_bytes())
+    // a block parked in the pool's queue remembers which peer it came from (that peer is asked for
+    // the missing parent, and charged if the block turns out invalid)
+    let parked: Vec<String> = s.n.mempool.try_read().map(|m| m.blocks_queue.iter().map(|b| format!("{}<-{:?}", hx(&b.hash[..4]), b.routed_from_peer)).collect()).unwrap_or_default();
+    saito_core::core::util::crypto::hash(format!("{:?}|{:?}|{:?}|{:?}|{:?}|{:?}|{:?}", snap, o.tip_hash, o.blocks, o.pool_blocks, q, s.inflight, parked).as_bytes())
 }
 
-fn enabled(s: &Sim, peers: u8) -> Vec<Ev> {
+fn enabled(s: &Sim, _peers: u8) -> Vec<Ev> {
     let mut v = vec![];
-    for p in 1..=peers {
+    for p in 1..=s.peers {
         for h in 0..4u8 {
             v.push(Ev::Announce(p, h));
         }
@@ -212,8 +226,8 @@ fn enabled(s: &Sim, peers: u8) -> Vec<Ev> {
     v
 }
 
-fn replay(u: &Uni, batch: u64, hist: &[Ev], rep: &mut Report) -> Option<Sim> {
-    let mut s = match start(u, batch, 2) {
+fn replay(u: &Uni, batch: u64, peers: u8, hist: &[Ev], rep: &mut Report) -> Option<Sim> {
+    let mut s = match start(u, batch, peers) {
         Ok(s) => s,
         Err(e) => {
             rep.machinery(format!("start: {}", e));
@@ -323,25 +337,76 @@ pub fn main(tier: Tier, _replay: Option<String>) -> i32 {
             return rep.finish();
         }
     };
-    for batch in [1u64, 2] {
-        let mut seen: BTreeSet<Hash> = BTreeSet::new();
-        let mut frontier: Vec<Vec<Ev>> = vec![vec![]];
-        let mut level = 0;
+    if let Ok(hs) = std::env::var("VERIF_C16_HISTORY") {
+        // developer aid: "batch;peers;Event;Event;..." with events in their Debug form
+        let mut it = hs.split(';');
+        let batch: u64 = it.next().and_then(|x| x.trim().parse().ok()).unwrap_or(1);
+        let peers: u8 = it.next().and_then(|x| x.trim().parse().ok()).unwrap_or(2);
+        let mut s = start(&u, batch, peers).expect("start");
+        let mut hist = vec![];
+        for name in it {
+            let evs = enabled(&s, peers);
+            let Some(ev) = evs.iter().find(|e| format!("{:?}", e) == name.trim()).cloned() else {
+                println!("{} is not enabled; enabled: {:?}", name, evs);
+                break;
+            };
+            hist.push(ev);
+            let mut r = rep.child();
+            let ok = apply(&u, &mut s, ev, &mut r, &hist);
+            println!("{:?}: applied={} violations={:?}\n   in flight (harness) {:?}\n   sync state {:?}", ev, ok, r.violations.iter().map(|v| v.key.clone()).collect::<Vec<_>>(), s.inflight, s.n.routing.blockchain_sync_state.verif_snapshot());
+        }
+        return 0;
+    }
+    // searches from the initial state, and from states that take more steps to reach than the
+    // quick bound allows: a block that is stored while a second request for it is still out
+    // (H4a fetched from peer 1 and added, in flight with peer 2), the same with a further block
+    // queued behind it, and a failed request waiting for its retry
+    let configs: Vec<(u64, u8, Vec<Ev>, usize)> = vec![
+        (1, 2, vec![], depth),
+        (2, 2, vec![], depth),
+        (2, 3, vec![], depth),
+        (1, 3, vec![Ev::Announce(1, 0), Ev::Announce(2, 0), Ev::Fetched(1, 0), Ev::Internal], depth - 1),
+        (1, 3, vec![Ev::Announce(1, 0), Ev::Announce(2, 0), Ev::Announce(2, 2), Ev::Fetched(1, 0), Ev::Internal], depth - 2),
+        (2, 3, vec![Ev::Announce(1, 0), Ev::Failed(1, 0), Ev::Announce(2, 1)], depth - 1),
+        // three serving peers, batch 1: H5 (its parent H4a is missing) arrives from peer 1 and is
+        // parked in the pool's block queue while it is in flight with peer 2 and queued behind
+        // H4a at peer 3
+        (1, 13, vec![Ev::Announce(1, 2), Ev::Announce(2, 2), Ev::Announce(3, 0), Ev::Announce(3, 2), Ev::Fetched(1, 2), Ev::Internal], depth - 2),
+    ];
+    for (ci, (batch, peers, prefix, more)) in configs.into_iter().enumerate() {
+        let mut seen: crate::audit::MergeAudit<Vec<Ev>> = crate::audit::MergeAudit::new();
+        if !prefix.is_empty() {
+            // the prefix must be executable as written
+            let mut scratch = rep.child();
+            let mut ok = start(&u, batch, peers).ok();
+            if let Some(s) = ok.as_mut() {
+                for (k, ev) in prefix.iter().enumerate() {
+                    if !apply(&u, s, *ev, &mut scratch, &prefix[..=k]) {
+                        rep.machinery(format!("search {}: prefix event {:?} is not enabled", ci, ev));
+                    }
+                }
+            } else {
+                rep.machinery(format!("search {}: start failed", ci));
+            }
+        }
+        let depth = prefix.len() + more;
+        let mut frontier: Vec<Vec<Ev>> = vec![prefix.clone()];
+        let mut level = prefix.len();
         while level < depth && !frontier.is_empty() {
             level += 1;
             // expand: enabled events depend on the state, so compute them during replay
             let results = par_map(&frontier, workers(), |_, h| {
                 let mut r = rep.child();
                 let mut out: Vec<(Vec<Ev>, Hash)> = vec![];
-                let Some(s0) = replay(&u, batch, h, &mut r.child()) else { return (r, out) };
-                let evs = enabled(&s0, 2);
+                let Some(s0) = replay(&u, batch, peers, h, &mut r.child()) else { return (r, out) };
+                let evs = enabled(&s0, peers);
                 drop(s0);
                 for ev in evs {
                     let mut hh = h.clone();
                     hh.push(ev);
                     r.evaluations += 1;
                     r.transitions += 1;
-                    if let Some(s) = replay(&u, batch, &hh, &mut r) {
+                    if let Some(s) = replay(&u, batch, peers, &hh, &mut r) {
                         let d = digest(&s);
                         if hh.len() <= 4 || matches!(ev, Ev::Failed(..) | Ev::Fetched(..)) {
                             completeness(&u, s, &hh, &mut r);
@@ -356,22 +421,38 @@ pub fn main(tier: Tier, _replay: Option<String>) -> i32 {
             for (r, out) in results {
                 rep.merge(r);
                 for (h, d) in out {
-                    if seen.insert(d) {
+                    if seen.see(d, &h) {
                         next.push(h);
                     }
                 }
             }
-            rep.outcome_n(&format!("batch{}-level-{}-new-states", batch, level), next.len() as u64);
+            rep.outcome_n(&format!("search{}-batch{}-peers{}-level-{}-new-states", ci, batch, peers, level), next.len() as u64);
             if next.len() > 3000 {
                 rep.exhaustive = false;
-                rep.extra.insert(format!("frontier_cap_batch{}", batch), json!({"level": level, "states": next.len(), "kept": 3000}));
+                rep.extra.insert(format!("frontier_cap_search{}_batch{}_peers{}", ci, batch, peers), json!({"level": level, "states": next.len(), "kept": 3000}));
                 next.truncate(3000);
             }
             frontier = next;
         }
         rep.states += seen.len() as u64;
-        for d in seen {
+        for d in seen.rep_of.keys() {
             rep.distinct.insert(hex::encode(&d[0..8]));
+        }
+        // canonicalisation audit: merged histories agree with their representative one step on
+        {
+            let quiet = Report::new("C16", tier.clone(), "model_checking");
+            seen.audit(if tier.thorough { 3000 } else { 300 }, &format!("scheduler-bfs-search{}-batch{}-peers{}", ci, batch, peers), |h: &Vec<Ev>| {
+                let Some(s0) = replay(&u, batch, peers, h, &mut quiet.child()) else { return vec![("replay-failed".to_string(), None)] };
+                let evs = enabled(&s0, peers);
+                drop(s0);
+                evs.into_iter()
+                    .map(|ev| {
+                        let mut hh = h.clone();
+                        hh.push(ev);
+                        (format!("{:?}", ev), replay(&u, batch, peers, &hh, &mut quiet.child()).map(|s| digest(&s)))
+                    })
+                    .collect()
+            }, &mut rep);
         }
     }
     retry_bound(&u, &mut rep);
